@@ -1773,35 +1773,38 @@ impl VectorEngine {
             });
         }
 
+        let pre_filter = || -> Vec<SearchResult> {
+            // Pre-filter: filter first, then search
+            self.store
+                .scan(&prefix)
+                .into_iter()
+                .filter_map(|storage_key| {
+                    let tensor = self.store.get(&storage_key).ok()?;
+                    if !Self::evaluate_filter(&tensor, filter) {
+                        return None;
+                    }
+                    let key = storage_key.strip_prefix(&prefix)?;
+                    let vector_value = tensor.get("vector")?;
+                    let vector = Self::extract_vector(vector_value)?;
+                    if vector.len() != query.len() {
+                        return None;
+                    }
+                    let score = Self::cosine_similarity(query, &vector, query_magnitude);
+                    Some(SearchResult::new(key.to_string(), score))
+                })
+                .collect()
+        };
+
         let mut results: Vec<SearchResult> = match strategy {
-            FilterStrategy::PreFilter | FilterStrategy::Auto => {
-                // Pre-filter: filter first, then search
-                self.store
-                    .scan(&prefix)
-                    .into_iter()
-                    .filter_map(|storage_key| {
-                        let tensor = self.store.get(&storage_key).ok()?;
-                        if !Self::evaluate_filter(&tensor, filter) {
-                            return None;
-                        }
-                        let key = storage_key.strip_prefix(&prefix)?;
-                        let vector_value = tensor.get("vector")?;
-                        let vector = Self::extract_vector(vector_value)?;
-                        if vector.len() != query.len() {
-                            return None;
-                        }
-                        let score = Self::cosine_similarity(query, &vector, query_magnitude);
-                        Some(SearchResult::new(key.to_string(), score))
-                    })
-                    .collect()
-            },
+            FilterStrategy::PreFilter | FilterStrategy::Auto => pre_filter(),
             FilterStrategy::PostFilter => {
                 // Post-filter: search first with oversample, then filter
                 let oversample_k = top_k
                     .saturating_mul(filter_config.oversample_factor)
                     .max(top_k);
                 let candidates = self.search_in_collection(collection, query, oversample_k)?;
-                candidates
+                let saturated = candidates.len() >= oversample_k;
+                let filtered: Vec<SearchResult> = candidates
                     .into_iter()
                     .filter(|r| {
                         let storage_key = Self::collection_embedding_key(collection, &r.key);
@@ -1810,7 +1813,14 @@ impl VectorEngine {
                             .map(|t| Self::evaluate_filter(&t, filter))
                             .unwrap_or(false)
                     })
-                    .collect()
+                    .collect();
+                // Too few matches while lower-ranked embeddings were cut off: search the
+                // matching embeddings directly
+                if filtered.len() < top_k && saturated {
+                    pre_filter()
+                } else {
+                    filtered
+                }
             },
         };
 
@@ -3575,6 +3585,7 @@ impl VectorEngine {
         // Oversample to get more candidates
         let oversample_k = top_k.saturating_mul(config.oversample_factor).max(top_k);
         let candidates = self.search_similar(query, oversample_k)?;
+        let saturated = candidates.len() >= oversample_k;
 
         // Filter candidates
         let filtered: Vec<SearchResult> = candidates
@@ -3582,6 +3593,12 @@ impl VectorEngine {
             .filter(|r| self.evaluate_filter_for_key(&r.key, filter))
             .take(top_k)
             .collect();
+
+        // Too few matches among the oversampled candidates while lower-ranked embeddings
+        // were cut off: matching embeddings may lie beyond the cut, so search them directly
+        if filtered.len() < top_k && saturated {
+            return Ok(self.search_with_pre_filter(query, top_k, filter));
+        }
 
         Ok(filtered)
     }
